@@ -345,10 +345,16 @@ func scenconfigMain(args []string) {
 	outp := fl.String("out", "", "NDJSON trace to write")
 	texts := fl.String("texts", "", "optional: NDJSON file receiving the rendered texts of every case")
 	workers := fl.Int("workers", 8, "parallel workers")
+	allStyles := fl.Bool("allstyles", false, "render the .yml and .json styles for every case (thorough tier)")
 	_ = fl.Parse(args)
 	if *cases == "" || *outp == "" {
 		fmt.Fprintln(os.Stderr, "scenconfig: -cases and -out are required")
 		os.Exit(2)
+	}
+	if *allStyles {
+		for i := range scStyles {
+			scStyles[i].every = 1
+		}
 	}
 	fs := afero.NewMemMapFs()
 	scnimport.Import(fs)
